@@ -633,7 +633,15 @@ func ruleTxFn(c *Ctx, rule string) {
 		inner := site.Body[0]
 		c.Analysed(FnName(inner))
 		// (1) outer: every return is preceded by the bolt call or a direct fn(ctx) (nested use)
-		ri := reachWithout(outer, func(in ssa.Instruction) bool { return in == ssa.Instruction(boltCall) || isFnCall(in) })
+		// (a function that chooses between db.Update and db.Batch has two such sites: either one runs it)
+		ri := reachWithout(outer, func(in ssa.Instruction) bool {
+			for _, other := range sites {
+				if other.Outer == outer && (other.Kinds["Update"] || other.Kinds["Batch"]) && !other.Forwarder && in == ssa.Instruction(other.Call) {
+					return true
+				}
+			}
+			return in == ssa.Instruction(boltCall) || isFnCall(in)
+		})
 		okOuter := true
 		for _, r := range returnsOf(outer) {
 			if ri.Reaches(r) {
